@@ -15,3 +15,40 @@ CLAIMED = {
         design_ref="6 C19",
     ),
 }
+
+TECH = "Lean 4 proof about an executable hand-written model + differential correspondence with the Python implementation (Spec oracle evaluated on the implementation's outputs)"
+COMMON_NOTE = ("Trusted: Lean kernel, axioms propext/Classical.choice/Quot.sound, the Mathlib modules imported by the proof files; "
+               "harness + Driver.lean + JSON codec (differential testing, not proof); numpy primitives as modelled; IEEE arithmetic abstracted "
+               "as exact arithmetic with tolerance on integer/dyadic inputs. ")
+
+def _c(pid, text, note, ref=None, technique=None):
+    CLAIMED[pid] = dict(technique=technique or TECH, level_text=text, level_note=COMMON_NOTE + note, design_ref=ref or f"6 {pid}, 12")
+
+_c("C02",
+   "36 theorems (Props/C02.lean): the segment-copy loop equals the parity mosaic with strict `<`; under independent Bernoulli(x_k) crossover "
+   "indicators the pairwise/adjacent/segregation/joint/independence laws hold for all marker counts and vectors; map-derived probabilities are 1/2 at "
+   "chromosome starts and Haldane composes over any number of intervals (over R); push-forward from grid-uniform draws; weak law for repeated meioses. "
+   "Correspondence: six meiosis functions + seven protocols with scripted and crafted genuine generator states (ties, 0, 1-2^-53).",
+   "Generator contract (independent draws uniform on k/2^53) is trusted; statistical runs at fixed seeds with a Bernstein budget are supporting evidence only. "
+   "Partial: draws_pushforward_exact_partial, spec_iff_model_partial. Kosambi composition for non-adjacent markers not covered.")
+_c("C11",
+   "34 theorems (Props/C11.lean): Haldane/Kosambi zero, limit 1/2, range, (strict) monotonicity and both inverse directions over R on [0,inf]; pairwise distances symmetric, "
+   "zero diagonal, additive for ordered markers, +inf exactly across chromosomes, sequential = adjacent pairwise; interpolation returns stored positions at markers, is linear between, "
+   "order preserving on congruent maps, NaN exactly for absent chromosomes, independent of row order; xoprob definition. The literal numpy.unique loop and the searchsorted/clip "
+   "transcription are proved equal to their closed forms.",
+   "scipy interp1d entered through its transcribed formula (re-checked per case); libm exp/tanh compared at 1e-12; partial: gdist1 loop = closed form needs contiguous labels "
+   "(documented precondition), xoprob_range_partial.")
+_c("C13",
+   "40 theorems (Props/C13.lean): molecular coancestry = twice mean IBS (allele-pair counting) for ploidy 1/2 and all sizes; VanRaden/Yang (as written, any sqrt)/weighted "
+   "formulas entry by entry; symmetry; PSD in Gram form; commutation with any taxa index list (permutation, subset, repeats) for supplied frequencies incl. labels; kinship = half; "
+   "max/min/mean/max_inbreeding specs; min_inbreeding optimal and attained under the inverse contract (Cauchy-Schwarz).",
+   "numpy.linalg.inv / eigvals entered through contracts (A*Ainv = I re-checked against exact Gauss-Jordan on well-conditioned cases). Partial: min_inbreeding_*_partial "
+   "(solver contract). apply_jitter, group metadata, I/O not modelled.")
+_c("C20",
+   "13 theorems (Props/C20.lean): for every schedule equal to the canonical skeleton up to no-ops, ALL replicate/generation counts, operators (arbitrary functions with internal state that may mutate, alias "
+   "and allocate, constrained only by a frame condition), heaps and initial states: the recorded trace is (evaluate@0, log, (pselect,log,mate,log,evaluate,log,sselect,log)@g)^nrep, each call is handed its predecessor's "
+   "result, the clock advances once per generation, every replicate starts from a fresh equal copy, start containers keep their contents. The schedule is REGENERATED from "
+   "RecurrentSelectionBreedingProgram.py by an ast translator on every run; `WellFormed C20Schedule.evolve` is closed by `decide` and breaks when the call skeleton changes.",
+   "copy.deepcopy = fresh cell with equal content (trusted); the ast->Lean translator (validated each run: the regenerated schedule is executed by the driver and its trace compared with the real class); "
+   "concrete operator classes are the quantified parameter.",
+   technique="Lean 4 proof (invariant over a heap semantics) about a schedule regenerated from the source by a translator + trace correspondence with the real class")
